@@ -248,6 +248,68 @@ def run(chk):
             st['disagreements'] += 1
             chk.disagreements.append({'op': 'chem_mass', 'line': repr(c), 'impl': im, 'model': m})
 
+    # the two adduct helpers called on their own (precision branches, non-string TypeError) and chem_mass on a formula string
+    from peptacular.proforma.proforma_dataclasses import Mod as _M
+    a1 = [(x, m, pr) for x in singles[:: max(1, len(singles) // 60)] + ['+Na+', '+2Mg2+', '-e-', 'Xx+'] for m in (True, False)
+          for pr in (None, 0, 3, 5)]
+
+    def a1_impl(c):
+        try:
+            return 'ok ' + repr(mass_calc._parse_adduct_mass(c[0], c[2], c[1]))
+        except Exception as e:  # noqa
+            return 'ERR:' + type(e).__name__
+
+    chk.correspond('adduct_mass_single', DRV, a1,
+                   lambda c: f'adduct_mass1\t{annot.esc(c[0])}\t{int(c[1])}\t{"None" if c[2] is None else c[2]}', a1_impl,
+                   compare=lambda im, m: cm.cmp_float(im, m, 1e-3 + TOL if False else 1.0))
+    st1 = chk.corr['adduct_mass_single']
+    o1 = chk.driver(DRV, [f'adduct_mass1\t{annot.esc(c[0])}\t{int(c[1])}\t{"None" if c[2] is None else c[2]}' for c in a1])
+    for c, m in zip(a1, o1):
+        im = a1_impl(c)
+        if not cm.cmp_float(im, m, TOL if c[2] is None else 10.0 ** -c[2] + TOL):
+            st1['disagreements'] += 1
+            chk.disagreements.append({'op': 'adduct_mass_single', 'line': repr(c), 'impl': im, 'model': m})
+    av = [(v, m, pr) for v in ['+Na+,+H+', '+H+', _M('+2K+,-e-', 1), _M('+H+', 2), 5, 2.5, _M(7, 1), '+Ca2+', 'Xx+', ''] + adds[:40]
+          for m in (True, False) for pr in (None, 2, 5)]
+
+    def av_impl(c):
+        try:
+            return 'ok ' + repr(mass_calc._parse_charge_adducts_mass(c[0], c[2], c[1]))
+        except Exception as e:  # noqa
+            return 'ERR:' + type(e).__name__
+
+    av_line = lambda c: f'adducts_mass_v\t{annot.show_val(c[0].val if isinstance(c[0], _M) else c[0])}\t{int(c[1])}\t{"None" if c[2] is None else c[2]}'
+    o2 = chk.driver(DRV, [av_line(c) for c in av])
+    st2 = chk.corr.setdefault('adducts_mass_value', {'evaluations': 0, 'disagreements': 0, 'samples': []})
+    for c, m in zip(av, o2):
+        im = av_impl(c)
+        st2['evaluations'] += 1
+        chk.evaluations += 1
+        if not cm.cmp_float(im, m, TOL if c[2] is None else 10.0 ** -c[2] + TOL):
+            st2['disagreements'] += 1
+            chk.disagreements.append({'op': 'adducts_mass_value', 'line': av_line(c), 'impl': im, 'model': m})
+    fs = []
+    for d, mono, pr in cm_cases[:150]:
+        if all(isinstance(v, int) for v in d.values()) and 'Xx' not in d:
+            fs.append((chem_util.write_chem_formula(d), mono, pr))
+    fs += [(f.split(':', 1)[1], m, None) for f in cm.FORMULAS for m in (True, False)] + [('C6X2', True, 3), ('C2ss', True, None)]
+
+    def fs_impl(c):
+        try:
+            return 'ok ' + repr(chem_util.chem_mass(c[0], c[1], c[2]))
+        except Exception as e:  # noqa
+            return 'ERR:' + type(e).__name__
+
+    o3 = chk.driver(DRV, [f'chem_mass_str\t{annot.esc(c[0])}\t{int(c[1])}\t{"None" if c[2] is None else c[2]}' for c in fs])
+    st3 = chk.corr.setdefault('chem_mass_of_formula_text', {'evaluations': 0, 'disagreements': 0, 'samples': []})
+    for c, m in zip(fs, o3):
+        im = fs_impl(c)
+        st3['evaluations'] += 1
+        chk.evaluations += 1
+        if not cm.cmp_float(im, m, TOL if c[2] is None else 10.0 ** -c[2] + TOL):
+            st3['disagreements'] += 1
+            chk.disagreements.append({'op': 'chem_mass_of_formula_text', 'line': repr(c), 'impl': im, 'model': m})
+
     # ------------------------------------------------------------------ mass / mz : model correspondence
     corpus = [case_of(o) for o in load_corpus(PID)]
     n_rand = 1500 if tier == 'quick' else 25000
